@@ -139,6 +139,7 @@ class Executor:
         self.stubs = dict(stubs or {})     # callee-name regex -> python generator (ex, args, path) -> yields (path, outcome)
         self.fresh = itertools.count()
         self.PROD, self.EUC, self.SIDE = {}, {}, []
+        self.PROD_TERMS = []
         self.queries = 0
         self.solver_s = 0.0
         self.max_unroll = max_unroll
@@ -148,6 +149,7 @@ class Executor:
         self.PROD.clear()
         self.EUC.clear()
         del self.SIDE[:]
+        del self.PROD_TERMS[:]
 
     # ------------------------------------------------------------------ arithmetic
     def prod(self, a, b, bound=2 ** 254):
@@ -162,6 +164,7 @@ class Executor:
                 return self.PROD[k2]
             p = Int('P%d' % next(self.fresh))
             self.PROD[k] = p
+            self.PROD_TERMS.append((a, b, p))
             self.SIDE.append(And(p >= -bound, p <= bound))
             # sign and zero facts every real product satisfies (keeps the generalisation tight enough)
             self.SIDE.append((p == 0) == Or(a == 0, b == 0))
@@ -498,6 +501,10 @@ class Executor:
             return Struct([self.operand(fr, f.split(': ', 1)[1]) for f in split_top(m2.group(2))])
         if rhs.startswith(('copy ', 'move ', 'const ')):
             return self.operand(fr, rhs)
+        if re.match(r'^[A-Z]\w*$', rhs) and rhs in getattr(self, 'enum_idx', {}):
+            v = EnumConst(rhs)
+            v.idx = self.enum_idx[rhs]
+            return v
         raise NotImplementedError('rvalue: ' + rhs)
 
     def closure_fn(self, cl):
@@ -532,6 +539,13 @@ class Executor:
         if m:
             ty = 'i256_fixed_point' if 'I256' in m.group(1) else 'i128_fixed_point'
             yield from self.run(self.find(ty + '::<impl', '>::' + m.group(2)), args, path, depth + 1)
+            return
+        m = re.match(r'^Vault::(\w+)$', c)
+        if m:
+            yield from self.run(self.find('vault::storage::<impl', '>::' + m.group(1)), args, path, depth + 1)
+            return
+        if c in ('mul_div_i128', 'checked_mul_div_i128', 'stellar_contract_utils::math::mul_div_i128'):
+            yield from self.run(c.split('::')[-1], args, path, depth + 1)
             return
         m = re.match(r'^Wad::(\w+)$', c)
         if m:
